@@ -8,6 +8,9 @@
 (2) fault enumeration on the REAL code: for every metric history and mode, the update is killed
     (FsInterposer, BaseException) before and after every file-system mutating call; a new controller is
     started on the same files and the property's clauses are evaluated on the real files.
+    The model handed to the controller is a dimension of the enumeration (TrainCtlModel.tla): a plain network, the
+    network inside torch.nn.DataParallel, the network inside a user-defined wrapper with a parameter of its own; the
+    process started after the crash constructs the same kind of model and loads into it.
 (3) code -> spec: the event traces of crash-free real runs are validated by TrainCtlFsTrace.tla, whose
     generic primitives evaluate the same invariants after every event."""
 import itertools
@@ -83,10 +86,42 @@ class Refused(Exception):
     pass
 
 
-def do_update(sim, row, crash_at=None, bit=False):
+def content_of(obj):
+    """which epoch's state a saved state dict holds (the harness sets weight = epoch and tags the optimizer's first group),
+    whatever the names the model's entries were saved under"""
+    try:
+        for k in obj:
+            if k == "weight" or (isinstance(k, str) and k.endswith(".weight")):
+                return int(round(float(obj[k].flatten()[0])))
+        if "param_groups" in obj:
+            return int(round(float(obj["param_groups"][0].get("vf_epoch", -1))))
+    except Exception:
+        pass
+    return -1
+
+
+def _interposer(crash_at):
     from ..doubles.fsinterposer import FsInterposer
 
-    with FsInterposer(namer, crash_at) as ip:
+    class Interposer(FsInterposer):
+        """also records WHICH PARAMETERS every saved model state dict holds (TrainCtlFsTrace: Ev.keys): its keys without
+        the prefix a wrapper puts before the names of the network's entries"""
+
+        def content_of(self, obj):
+            self._keys = [] if "param_groups" in obj else sorted(
+                str(k)[len("module."):] if str(k).startswith("module.") else str(k) for k in obj)
+            return content_of(obj)
+
+        def _after(self, what, info):
+            if what == "write":
+                info = dict(info, keys=self._keys)
+            return FsInterposer._after(self, what, info)
+
+    return Interposer(namer, crash_at)
+
+
+def do_update(sim, row, crash_at=None, bit=False):
+    with _interposer(crash_at) as ip:
         try:
             sim.update(row, best_is_train=bit)
         except ValueError as ex:
@@ -127,10 +162,12 @@ def check_recovery(sim, vals, mode, free_csv_rows, ctx_out, sig_base, case, orc)
         return False
     if ctl.get_last_epoch() != L:
         bad("last_epoch", "get_last_epoch()=%r, history has %d rows" % (ctl.get_last_epoch(), L))
+    kind = sim.model_kind
     if L > 0:
-        w = int(round(float(sim.model.weight.detach().flatten()[0])))
+        w = _tc.epoch_of(sim.model)
         if w != L:
-            bad("last_params", "model loaded for the last recorded epoch %d holds the parameters of epoch %d" % (L, w))
+            bad("last_params", "%s model loaded for the last recorded epoch %d holds %s" % (
+                kind, L, "the parameters of epoch %d" % w if w is not None else "parameters that were not saved for any one epoch"))
         tag = sim.opt.param_groups[0].get("vf_epoch", None)
         if tag != L:
             bad("last_optim_params", "optimizer loaded for the last recorded epoch %d holds the state of epoch %r" % (L, tag))
@@ -146,7 +183,7 @@ def check_recovery(sim, vals, mode, free_csv_rows, ctx_out, sig_base, case, orc)
         # last state persists, so the best epoch is not judged there)
         import torch
 
-        m2 = torch.nn.Linear(1, 1)
+        m2 = _tc.make_model(kind)
         try:
             with warnings.catch_warnings():
                 warnings.simplefilter("ignore")
@@ -154,15 +191,19 @@ def check_recovery(sim, vals, mode, free_csv_rows, ctx_out, sig_base, case, orc)
                     ctl.load_model_for_epoch(m2, B)  # (without an epoch the library loads the validation-best)
                 else:
                     ctl.load_model_for_epoch(m2)
-            w = int(round(float(m2.weight.detach().flatten()[0])))
+            w = _tc.epoch_of(m2)
             if w != B:
-                bad("best_params", "model loaded for the best epoch %d holds the parameters of epoch %d" % (B, w))
+                bad("best_params", "%s model loaded for the best epoch %d holds %s" % (
+                    kind, B, "the parameters of epoch %d" % w if w is not None else "parameters that were not saved for any one epoch"))
             # ... and the optimizer state of the best epoch, with the rate recorded for it
-            m3 = torch.nn.Linear(1, 1)
+            m3 = _tc.make_model(kind)
             o3 = torch.optim.SGD(m3.parameters(), lr=123.0, momentum=0.5)
             with warnings.catch_warnings():
                 warnings.simplefilter("ignore")
                 ctl.load_model_and_optimizer_for_epoch(m3, o3, B)
+            if _tc.epoch_of(m3) != B:
+                bad("best_params", "%s model loaded together with the optimizer for the best epoch %d holds the parameters of epoch %r" % (
+                    kind, B, _tc.epoch_of(m3)))
             tag = o3.param_groups[0].get("vf_epoch", None)
             if tag != B:
                 bad("best_optim_params", "optimizer loaded for the best epoch %d holds the state of epoch %r" % (B, tag))
@@ -175,10 +216,10 @@ def check_recovery(sim, vals, mode, free_csv_rows, ctx_out, sig_base, case, orc)
         import torch
 
         for e in range(1, L + 1):
-            m2 = torch.nn.Linear(1, 1)
+            m2 = _tc.make_model(kind)
             try:
                 ctl.load_model_for_epoch(m2, e)
-                if int(round(float(m2.weight.detach().flatten()[0]))) != e:
+                if _tc.epoch_of(m2) != e:
                     bad("kept_epoch_params", "epoch %d not holding its parameters" % e)
                 o2 = torch.optim.SGD(m2.parameters(), lr=123.0, momentum=0.5)
                 ctl.load_model_and_optimizer_for_epoch(m2, o2, e)
@@ -211,8 +252,9 @@ def continue_to_end(sim, vals, free_csv_text, ctx_out, sig_base, case, n_expecte
 
 
 def scenario(job):
-    """job = (mode, vals, p, base_dir, double, oracle) -> dict(results); oracle = oracle_for(...) (from the spec)"""
-    mode, vals, p, base, double, orc = job
+    """job = (mode, vals, p, base_dir, double, oracle[, model kind]) -> dict(results); oracle = oracle_for(...) (from the spec)"""
+    mode, vals, p, base, double, orc = job[:6]
+    kind = job[6] if len(job) > 6 else "plain"
     keep_lb, mfmt, ofmt, epoch_fmt, bit = MODES[mode]
     rows = rows_for(vals)
     out = []
@@ -222,7 +264,7 @@ def scenario(job):
         # ---- crash-free run: count calls, record the trace, ExactlyTwo on the real directory
         d0 = os.path.join(work, "free")
         os.makedirs(d0)
-        sim = _tc.Sim(d0, p, keep_lb, mfmt, ofmt)
+        sim = _tc.Sim(d0, p, keep_lb, mfmt, ofmt, model_kind=kind)
         trace = []
         ncalls = []
         n_done = 0
@@ -236,7 +278,7 @@ def scenario(job):
                 break  # documented: refuses to overwrite the best checkpoint
             except Exception as ex:
                 out.append((dict(site="update_for_epoch", kind="exception", mode=mode), "crash-free update raised %r" % ex,
-                            dict(mode=mode, vals=vals, p=p, oracle=orc)))
+                            dict(mode=mode, vals=vals, p=p, oracle=orc, kind=kind)))
                 return dict(out=out, stats=stats, trace=None)
             ncalls.append(ip.k)
             n_done += 1
@@ -245,7 +287,8 @@ def scenario(job):
                     tmpids[ev["path"][1]] = len(tmpids) + 1
                     trace.append(dict(op="mktemp", t=tmpids[ev["path"][1]]))
                 elif ev["op"] == "write":
-                    trace.append(dict(op="write", t=tmpids.get(ev["path"][1], 0), c=ev["content"], k=lrk_of(ev.get("lr"))))
+                    trace.append(dict(op="write", t=tmpids.get(ev["path"][1], 0), c=ev["content"], k=lrk_of(ev.get("lr")),
+                                      keys=ev["keys"]))
                 elif ev["op"] == "replace":
                     trace.append(dict(op="replace", t=tmpids.get(ev["src"][1], 0), kind=ev["dst"][0], e=ev["dst"][1]))
                 elif ev["op"] == "append":
@@ -263,7 +306,7 @@ def scenario(job):
                 if sorted(map(tuple, files)) != want:
                     out.append((dict(site="update_for_epoch", kind="exactly_two", mode=mode),
                                 "after the update of epoch %d the state directory holds %r, expected %r" % (e, files, want),
-                                dict(mode=mode, vals=vals, p=p, epoch=e, oracle=orc)))
+                                dict(mode=mode, vals=vals, p=p, epoch=e, oracle=orc, kind=kind)))
         free_rows = [_tc.parse_csv_line(x) for x in sim.read_csv()]
         with open(sim.csv) as f:
             free_text = f.read() if os.path.exists(sim.csv) else ""
@@ -273,7 +316,7 @@ def scenario(job):
                 for side in ("before", "after"):
                     d = os.path.join(work, "c_%d_%d_%s" % (ei, k, side))
                     os.makedirs(d)
-                    sim = _tc.Sim(d, p, keep_lb, mfmt, ofmt)
+                    sim = _tc.Sim(d, p, keep_lb, mfmt, ofmt, model_kind=kind)
                     for row in rows[:ei]:
                         do_update(sim, row, bit=bit)
                     from ..doubles.fsinterposer import Crash
@@ -296,11 +339,13 @@ def scenario(job):
                     stats["points"].append((ei, k, side, changed))
                     # the interposer of the crashed call is gone; recompute the window from the files' difference
                     win = classify_window(sim, before_rows, rows[ei]["epoch"], epoch_fmt)
-                    case = dict(mode=mode, vals=vals, p=p, crash_epoch=ei + 1, crash_call=k, side=side, crashes=1, oracle=orc)
+                    case = dict(mode=mode, vals=vals, p=p, crash_epoch=ei + 1, crash_call=k, side=side, crashes=1, oracle=orc, kind=kind)
                     sig = dict(site="update_for_epoch", fmt="epoch" if epoch_fmt else "noepoch", keep="lb" if keep_lb else "all",
                                window=win, crashes=1)
                     if bit:
                         sig["best"] = "train"
+                    if kind != "plain":
+                        sig["model"] = kind
                     nb = len(out)
                     ok = check_recovery(sim, vals, mode, free_rows, out, sig, case, orc)
                     if ok and len(out) == nb:
@@ -309,7 +354,7 @@ def scenario(job):
                         else:
                             continue_to_end(sim, vals, free_text, out, sig, case, n_done, bit)
                     shutil.rmtree(d, ignore_errors=True)
-        return dict(out=out, stats=stats, trace=dict(keep_lb=keep_lb, best_is_train=bit, events=trace) if epoch_fmt else None,
+        return dict(out=out, stats=stats, trace=dict(keep_lb=keep_lb, best_is_train=bit, kind=kind, events=trace) if epoch_fmt else None,
                     n_done=n_done, ncalls=ncalls)
     finally:
         shutil.rmtree(work, ignore_errors=True)
@@ -329,9 +374,7 @@ def classify_window(sim, rows_before, epoch, epoch_fmt):
             obj = torch.load(pth, map_location="cpu")
         except Exception:
             return False
-        from ..doubles.fsinterposer import FsInterposer
-
-        return FsInterposer.content_of(obj) == epoch
+        return content_of(obj) == epoch
 
     hm, ho = holds("m"), holds("o")
     if appended and not (hm and ho):
@@ -362,7 +405,7 @@ def double_crash(sim, d, vals, rows, mode, p, free_rows, free_text, out, stats, 
                 d2 = d + "_2"
                 shutil.rmtree(d2, ignore_errors=True)
                 shutil.copytree(snap, d2)
-                sim2 = _tc.Sim(d2, p, keep_lb, mfmt, ofmt)
+                sim2 = _tc.Sim(d2, p, keep_lb, mfmt, ofmt, model_kind=sim.model_kind)
                 rows_before = len(sim2.read_csv())
                 try:
                     do_update(sim2, rows[rows_before], (k, side), bit=bit)
@@ -381,6 +424,8 @@ def double_crash(sim, d, vals, rows, mode, p, free_rows, free_text, out, stats, 
                                window=win, crashes=2)
                     if bit:
                         sig["best"] = "train"
+                    if sim.model_kind != "plain":
+                        sig["model"] = sim.model_kind
                     nb = len(out)
                     ok = check_recovery(sim2, vals, mode, free_rows, out, sig, case, orc)
                     if ok and len(out) == nb:
@@ -481,20 +526,25 @@ def run(ctx):
                 "restart on the same files and evaluate prefix / last+best loadable with the saved parameters and the recorded "
                 "learning rate in the optimizer state (oracle: TrainCtlFs!Export) / continue "
                 "to the same history; non-trivial = crash point at which files or history had already changed; distinct by "
-                "(mode, parameters, history, epoch, call index, side[, second crash])")
+                "(mode, parameters, history, epoch, call index, side[, second crash], model kind); "
+                "model kind: a plain network everywhere, and for 2 (thorough: 8) seeded histories per mode the network wrapped in "
+                "torch.nn.DataParallel and in a user-defined wrapper with a parameter of its own (the restarted process builds the "
+                "same kind of model; every parameter, the wrapper's included, must come back as saved)")
     ctx.assumptions += ["a crash is modelled as a BaseException raised immediately before/after a mutating call; each call "
                         "(torch.save into the temporary file, os.replace, the history append closed by its `with`, os.remove) "
                         "is atomic", "left-over temporary files after a crash are tolerated",
                         "file-name format without the epoch field + keep-everything: only the last epoch is judged (the "
-                        "library warns that only the last state persists)"]
+                        "library warns that only the last state persists)",
+                        "wrapped models outside torch.distributed: torch.nn.DataParallel on the CPU (forwards to the network) and a "
+                        "user module keeping the network in an attribute called `module`"]
     oracles = run_design(ctx)
     n = 3 if ctx.quick else 4
     hists = list(itertools.product((1, 2, 3), repeat=n))
     base = ctx.subdir("runs")
     jobs = []
 
-    def add(mode, vals, p, double):
-        jobs.append((mode, list(vals), p, base, double, oracle_for(oracles, p, MODES[mode][4], list(vals))))
+    def add(mode, vals, p, double, kind="plain"):
+        jobs.append((mode, list(vals), p, base, double, oracle_for(oracles, p, MODES[mode][4], list(vals)), kind))
 
     for mode in MODES:
         for vals in hists:
@@ -502,6 +552,11 @@ def run(ctx):
     for mode in ("epoch_lb", "epoch_all"):
         for vals in ctx.rng.sample(hists, min(len(hists), 9 if ctx.quick else 40)):
             add(mode, vals, P1, False)
+    # the model handed to the controller is a wrapper (TrainCtlModel): seeded histories in every mode
+    for mode in MODES:
+        for kind in _tc.MODEL_KINDS[1:]:
+            for vals in ctx.rng.sample(hists, 2 if ctx.quick else 8):
+                add(mode, vals, P0, False, kind)
     if ctx.quick:  # a few double-crash scenarios even in the quick tier
         for mode in MODES:
             for vals in ctx.rng.sample(hists, 2):
@@ -509,12 +564,12 @@ def run(ctx):
     results = par.pmap(scenario, jobs, chunksize=1)
     traces = []
     tot = dict(crash_points=0, crash_points_changed_files=0, double_crash_points=0)
-    for (mode, vals, p, _, double, _orc), r in zip(jobs, results):
+    for (mode, vals, p, _, double, _orc, kind), r in zip(jobs, results):
         for k in tot:
             tot[k] += r["stats"][k]
         ctx.case(n=r["stats"]["crash_points"] + r["stats"]["double_crash_points"])
         for ei, k, side, changed in r["stats"]["points"]:
-            ctx.case(key=(mode, vals, sorted(p.items()), ei, k, side, double), nontrivial=changed, n=0)
+            ctx.case(key=(mode, vals, sorted(p.items()), ei, k, side, double, kind), nontrivial=changed, n=0)
         if r.get("trace"):
             t = r["trace"]
             t.update(mode=mode, vals=vals, p=p)
@@ -522,7 +577,7 @@ def run(ctx):
         for sig, detail, case in r["out"]:
             ctx.violation(sig, detail, case)
         if len(ctx.samples) < 5 and ctx.rng.random() < 0.05:
-            ctx.samples.append(dict(mode=mode, val_metrics=vals, params=p, mutating_calls_per_update=r.get("ncalls"),
+            ctx.samples.append(dict(mode=mode, val_metrics=vals, params=p, model=kind, mutating_calls_per_update=r.get("ncalls"),
                                     crash_points=r["stats"]["crash_points"], double_crash=double))
     ctx.extra.update(tot)
     ctx.exhaustive = True
@@ -533,13 +588,15 @@ def run(ctx):
 
 def replay(ctx, case):
     if case.get("trace_only"):
+        if "kind" not in (case.get("trace") or {}):
+            raise MachineryError("stored trace carries no model kind (written by an older version of the check); re-run the check")
         validate_traces(ctx, [case["trace"]])
         return
     base = ctx.subdir("replay")
     orc = case.get("oracle")
     if orc is None:
         raise MachineryError("stored case carries no oracle (written by an older version of the check); re-run the check")
-    r = scenario((case["mode"], case["vals"], case["p"], base, case.get("crashes", 1) > 1, orc))
+    r = scenario((case["mode"], case["vals"], case["p"], base, case.get("crashes", 1) > 1, orc, case.get("kind", "plain")))
     hit = False
     for sig, detail, c in r["out"]:
         if all(c.get(k) == case.get(k) for k in ("crash_epoch", "crash_call", "side", "second_crash_call", "second_side")):
